@@ -130,6 +130,11 @@ func allScenarios(tier string) []*Scenario {
 	addTiming(ss, thorough)
 	addSplitLayer(ss, thorough)
 	addSeqLayer(ss, thorough)
+	addMergeSplitGrid(ss, thorough)
+	// a caller cancelled while it waits for room in the shard's input channel (stalled export, max_concurrency 1)
+	ss.add(Scenario{Name: "D7-cancel-backpressure", QB: 1, TB: 2, Signal: "traces", S: 1, Timeout: T, K: 1, NumCPU: 1, Early: true,
+		Callers: []CallerSpec{{Label: "B", Reqs: []Shape{simple("traces", "B", 1)}}, {Label: "C", Reqs: []Shape{simple("traces", "C", 1)}},
+			{Label: "D", Reqs: []Shape{simple("traces", "D", 1)}}, {Label: "A", Cancellable: true, Reqs: []Shape{simple("traces", "A", 1)}}}})
 	// K2: max_concurrency=2 with three batches in flight
 	for _, early := range []bool{false, true} {
 		if !early && !thorough {
@@ -213,6 +218,15 @@ func addContexts(ss *scenarioSet, thorough bool) {
 	mk("D9-partial/3+3", func(s *Scenario) {
 		s.M = 4
 		s.Callers = []CallerSpec{{Label: "A", Reqs: one("A", 3)}, {Label: "B", Cancellable: true, Reqs: one("B", 3)}}
+	})
+	// a request that ends exactly on a batch boundary, followed by a batch fed by one other context
+	mk("D9-aligned/2|2", func(s *Scenario) {
+		s.S = 2
+		s.Callers = []CallerSpec{{Label: "A", Cancellable: true, Reqs: one("A", 2)}, {Label: "B", Reqs: one("B", 2)}}
+	})
+	mk("D9-aligned-max/4|2", func(s *Scenario) {
+		s.S, s.M = 2, 2
+		s.Callers = []CallerSpec{{Label: "A", Reqs: one("A", 4)}, {Label: "B", CtxOnly: true, Reqs: one("B", 2)}}
 	})
 	mk("D9-deadline/2+2", func(s *Scenario) {
 		s.ShutdownAt = 5 * T
@@ -447,4 +461,25 @@ func tierTag(thorough bool) string {
 		return "t"
 	}
 	return "q"
+}
+
+// MS: two concurrent callers A:a, B:b for every small (a, b) and S = M in {2, 3}:
+// every way a complete contributor can precede a partially served one.
+func addMergeSplitGrid(ss *scenarioSet, thorough bool) {
+	maxN := 3
+	if thorough {
+		maxN = 4
+	}
+	for _, sm := range []int{2, 3} {
+		pack := Scenario{Name: fmt.Sprintf("MS-grid-%s/S%dM%d", tierTag(thorough), sm, sm), Bound: 1, TB: 2}
+		for a := 1; a <= maxN; a++ {
+			for b := 1; b <= maxN; b++ {
+				sub := Scenario{Name: fmt.Sprintf("%s/%d,%d", pack.Name, a, b), Signal: "traces", S: uint32(sm), M: uint32(sm), Timeout: T, NumCPU: 1, Tracing: false,
+					SinkFail: a+b <= 4,
+					Callers: []CallerSpec{{Label: "A", Reqs: []Shape{simple("traces", "A", a)}}, {Label: "B", Reqs: []Shape{simple("traces", "B", b)}}}}
+				pack.Pack = append(pack.Pack, &sub)
+			}
+		}
+		ss.add(pack)
+	}
 }
